@@ -40,7 +40,9 @@ fn statement(lname: &str, t: &mut Tape, k: usize) -> String {
             1 => format!("f(x, {k});\n"),
             _ => format!("(a - {k}) ^ 2;\n"),
         },
-        "indent" => match t.below(3) {
+        // the kinds rotate with k so that every document is a mix (a document of 'x + k' lines only shares nothing
+        // with the old tree on the reference tree, see the known finding)
+        "indent" => match (t.below(3) + k) % 3 {
             0 => format!("x + {k}\n"),
             1 => format!("if a:\n    b + {k}\n    pass\n"),
             _ => format!("def f(a):\n    a * {k}\n"),
@@ -63,6 +65,9 @@ fn build_doc(lname: &str, t: &mut Tape, tokens: usize, nested: bool) -> String {
     if nested && lname == "json" {
         s.push_str("[\n");
     }
+    if nested && lname == "indent" {
+        s.push_str("def outer(a):\n");
+    }
     let mut est = 0;
     while est < tokens {
         let st = statement(lname, t, k);
@@ -70,6 +75,13 @@ fn build_doc(lname: &str, t: &mut Tape, tokens: usize, nested: bool) -> String {
         if nested && lname == "json" {
             s.push_str(st.trim_end());
             s.push_str(",\n");
+        } else if nested && lname == "indent" {
+            // the whole document is one indentation block: every parse state inside it accepts external tokens
+            for line in st.lines() {
+                s.push_str("    ");
+                s.push_str(line);
+                s.push('\n');
+            }
         } else {
             s.push_str(&st);
         }
@@ -90,6 +102,9 @@ struct Measure {
     shared: f64,
     leaves: usize,
     len: usize,
+    token_replaced: bool,
+    /// indent documents: each of the three statement kinds makes up at least a fifth of the statements
+    mixed: bool,
 }
 
 impl Check for C12 {
@@ -97,7 +112,7 @@ impl Check for C12 {
         "C12"
     }
     fn rule(&self) -> String {
-        format!("case = zoo language (json, mini, arith, indent, glr) x generated error-free document of N = 10^3 or 10^4 tokens (thorough: also 10^5), flat or nested in one enclosing block x one single-token edit (a number replaced by a number of another length) at relative position 0, 0.1, 0.5, 0.9, 1 or tape-chosen. During parse(new, edited old tree) three clock-free quantities are measured: lexed = number of 'lexed_lookahead' parse-log events / leaf count; served = bytes handed out by a 64-byte-chunk read callback / document length; shared = fraction of the new tree's node ids that also occur in the old tree. Required: lexed <= {MAX_LEXED_FRACTION}, served <= {MAX_SERVED_FRACTION}, shared >= {MIN_SHARED_FRACTION} (reference tree: about 2-8 tokens, 64-128 bytes, >= 0.85), and no fraction at 10N exceeds max(2 x fraction at N, 1%). The new tree must equal a scratch parse. Every case is non-trivial (N >= 10^3, error-free, non-empty edit); distinct by hash(language, document, edit).")
+        format!("case = zoo language (json, mini, arith, indent, glr) x generated error-free document of N = 10^3 or 10^4 tokens (thorough: also 10^5), flat or nested in one enclosing block x one single-token edit (a number replaced by a number of another length) at relative position 0, 0.1, 0.5, 0.9, 1 or tape-chosen. During parse(new, edited old tree) three clock-free quantities are measured: lexed = number of 'lexed_lookahead' parse-log events / leaf count; served = bytes handed out by a 64-byte-chunk read callback / document length; shared = fraction of the new tree's node ids that also occur in the old tree. Required: lexed <= {MAX_LEXED_FRACTION}, served <= {MAX_SERVED_FRACTION}, shared >= {MIN_SHARED_FRACTION} (reference tree: about 2-8 tokens, 64-128 bytes, >= 0.85), and no fraction at 10N exceeds max(2 x fraction at N, 1%). Grammars for which the reference tree itself is far from these bounds are judged by calibrated per-grammar bounds (mini; indent, flat or wholly nested in one indentation block, when a number token is replaced in a document that mixes the three statement kinds: lexed <= 0.15 and shared >= 0.45 against measured 0.023-0.052 and >= 0.73) and the gap is listed as a known finding. The new tree must equal a scratch parse. Every case is non-trivial (N >= 10^3, error-free, non-empty edit); distinct by hash(language, document, edit).")
     }
     fn cases(&self, tier: Tier) -> u64 {
         match tier {
@@ -117,7 +132,7 @@ impl Check for C12 {
         let big = if ctx.tier == Tier::Thorough { t.weighted(&[40, 45, 15]) } else { t.weighted(&[55, 45, 0]) };
         let sizes: [usize; 3] = [1000, 10_000, 100_000];
         let n = sizes[big];
-        let nested = t.pct(55) && (lname == "mini" || lname == "json");
+        let nested = t.pct(55) && (lname == "mini" || lname == "json" || lname == "indent");
         ctx.label(format!("lang:{lname}"));
         ctx.label(["size:10^3", "size:10^4", "size:10^5"][big]);
         ctx.label_if(nested, "nested");
@@ -197,6 +212,23 @@ impl Check for C12 {
                 }
             }
             let (start, end) = (edit.start, edit.old_end);
+            let token_replaced = !edit.inserted.is_empty() && end > start;
+            let mixed = {
+                let txt = String::from_utf8_lossy(&text.bytes);
+                let (mut a, mut b, mut c) = (0usize, 0usize, 0usize);
+                for l in txt.lines() {
+                    let l = l.trim_start();
+                    if l.starts_with("x + ") {
+                        a += 1;
+                    } else if l.starts_with("if a:") {
+                        b += 1;
+                    } else if l.starts_with("def f(") {
+                        c += 1;
+                    }
+                }
+                let tot = (a + b + c).max(1);
+                a * 5 >= tot && b * 5 >= tot && c * 5 >= tot
+            };
             let desc = format!("{}..{} -> {:?} (relative position {:.3})", start, end, String::from_utf8_lossy(&edit.inserted[..edit.inserted.len().min(30)]), start as f64 / text.len().max(1) as f64);
             let old_ids = XTree::build(&old).ids();
             let ie = text.apply(&edit);
@@ -234,7 +266,7 @@ impl Check for C12 {
                 return None;
             }
             let leaves = nx.leaves().count();
-            Some((Measure { lexed: lexed.load(Ordering::Relaxed), served: served.get(), shared, leaves, len: text.len() }, desc))
+            Some((Measure { lexed: lexed.load(Ordering::Relaxed), served: served.get(), shared, leaves, len: text.len(), token_replaced, mixed }, desc))
         };
         let (m, desc) = match measure(ctx, t, n) {
             Some(x) => x,
@@ -264,6 +296,10 @@ impl Check for C12 {
             "mini" => (0.35, 1.6, 0.25),
             // indent: depending on the document shape nothing at all may be shared (all top-level 'x + k' lines):
             // no threshold can be calibrated "with a wide margin"; the finding is recorded, regressions are not judged
+            // ... but when one number token is replaced and the line structure stays (no statement inserted), the
+            // reference tree re-lexes 2.3%-5.2% of the tokens (max over 4 seeds x ~400 cases, flat and nested in one
+            // block) and shares >= 0.70 of the node ids: a bound with a factor 3 margin is judged there
+            "indent" if m.token_replaced && m.mixed => (0.15, 1.6, 0.45),
             "indent" => (1.01, 1.6, 0.0),
             // glr: every statement of the generated documents needs two stack versions; nodes made then are fragile and never reused
             "glr" => (1.01, 1.6, 0.0),
